@@ -502,6 +502,8 @@ class CallMixin:
                 return [(st, VNone())]
             if meth == "extend":
                 o = ops.deref(st, pos[0])
+                if isinstance(o, VOpt):
+                    o = o.get()             # `x is not None` was tested on this path (None.extend would be a TypeError)
                 if isinstance(o, VEmptySeq):
                     return [(st, VNone())]
                 if isinstance(v, VTuple) or isinstance(o, VTuple):
